@@ -266,6 +266,30 @@ func c10mutations(rng *rand.Rand, base []byte, pool *Pool) []c10str {
 		fl[rng.Intn(32)] ^= byte(1 << uint(rng.Intn(8)))
 		put(f, fl, "bitflip")
 	}
+	// the same kind of invalid field in several places at once (2, 3, 4 and all 16 L/R fields; the same bytes or different
+	// ones): every field is checked on its own, whatever the others hold
+	for _, k := range []int{2, 3, 4, 16} {
+		for _, kind := range []string{"non-subgroup", "off-curve", "alias-x+p"} {
+			b := append([]byte(nil), base...)
+			same := rng.Intn(2) == 0
+			var v []byte
+			for _, fi := range rng.Perm(16)[:k] {
+				f := 1 + fi
+				if v == nil || !same {
+					switch kind {
+					case "non-subgroup":
+						v = be32(c06nonSubgroupX(rng))
+					case "off-curve":
+						v = be32(c06offCurveX(rng))
+					default:
+						v = be32(new(big.Int).Add(ref.FromBE(base[32*f:32*f+32]), ref.P))
+					}
+				}
+				copy(b[32*f:], v)
+			}
+			out = append(out, c10str{b, fmt.Sprintf("%dxLR:%s", k, kind)})
+		}
+	}
 	// lengths
 	for _, L := range []int{0, 1, 31, 32, 33, 543, 544, 545, 575, 577, 578, 576 + 32, 1152, rng.Intn(1153)} {
 		b := make([]byte, L)
@@ -389,11 +413,26 @@ func c10honest(c *mon.Ctx, rng *rand.Rand) []byte {
 	if err != nil {
 		return nil
 	}
+	// the proof straight from the prover (its points are projective, not what Read produces): writing it is a read-only
+	// use of the proof object, and writing it twice gives the same bytes
+	snapD, snapL, snapR, snapA := pr.D, append([]banderwagon.Element(nil), pr.IPA.L...), append([]banderwagon.Element(nil), pr.IPA.R...), pr.IPA.A_scalar
 	var buf bytes.Buffer
 	if err := pr.Write(&buf); err != nil || buf.Len() != 576 {
 		c.Fail("write-honest", fmt.Sprintf("Write of an honest proof: err=%v len=%d", err, buf.Len()), nil)
 		return nil
 	}
+	changed := pr.D != snapD || pr.IPA.A_scalar != snapA || len(pr.IPA.L) != len(snapL) || len(pr.IPA.R) != len(snapR)
+	for i := 0; !changed && i < len(snapL); i++ {
+		changed = pr.IPA.L[i] != snapL[i] || pr.IPA.R[i] != snapR[i]
+	}
+	if changed {
+		c.Fail("proof-modified-by-Write", "MultiProof.Write changed the proof object it serialised (a prover-made proof with projective points)", nil)
+	}
+	var buf2 bytes.Buffer
+	if err := pr.Write(&buf2); err != nil || !bytes.Equal(buf.Bytes(), buf2.Bytes()) {
+		c.Fail("write-twice-differs", fmt.Sprintf("writing the same prover-made proof twice gives different bytes (err=%v)", err), nil)
+	}
+	c.Count("prover_made_proofs_written", 1)
 	return buf.Bytes()
 }
 
